@@ -32,13 +32,47 @@ func NewSafeValue(val Value, types ...string) SafeValue {
 	for _, k := range types {
 		safeFor[k] = true
 	}
-	if v, ok := val.(SafeValue); ok && !nilReceiver(v, "Value") && !nilReceiver(v, "SafeFor") {
-		for _, k := range v.SafeFor() {
-			safeFor[k] = true
+	if v, ok := val.(SafeValue); ok && !nilReceiver(v, "SafeFor") {
+		if inner, ok := safeInner(v); ok {
+			if types, ok := safeTypes(v); ok {
+				for _, k := range types {
+					safeFor[k] = true
+				}
+				return safeValue{safeFor, inner}
+			}
 		}
-		return safeValue{safeFor, v.Value()}
 	}
 	return safeValue{safeFor, val}
+}
+
+// safeInner returns the value inside sv. The second result is false if
+// sv.Value cannot be called: sv is a nil pointer to a type that declares the
+// method with a value receiver, or the method is promoted through a nil
+// pointer or interface (see nilPointer).
+func safeInner(sv SafeValue) (inner Value, ok bool) {
+	if nilReceiver(sv, "Value") {
+		return nil, false
+	}
+	if nilPointer(sv) {
+		defer func() {
+			if recover() != nil {
+				inner, ok = nil, false
+			}
+		}()
+	}
+	return sv.Value(), true
+}
+
+// safeTypes is sv.SafeFor() with the same care.
+func safeTypes(sv SafeValue) (types []string, ok bool) {
+	if nilPointer(sv) {
+		defer func() {
+			if recover() != nil {
+				types, ok = nil, false
+			}
+		}()
+	}
+	return sv.SafeFor(), true
 }
 
 type safeValue struct {
@@ -192,13 +226,46 @@ func nilReceiver(v Value, method string) bool {
 	return ok
 }
 
-// nilPointer reports whether v is a nil pointer. Its methods are called
-// under recover: one that is promoted from a struct embedded by value cannot
-// be reached through the nil pointer at all, and the value then has no
+// nilPointer reports whether v is a nil pointer, or a struct (or pointer to
+// one) that embeds a nil pointer or nil interface. The methods of such a value
+// are called under recover: a method promoted from an embedded struct cannot
+// be reached through a nil pointer, nor through a nil embedded pointer or
+// interface; the call fails before the method runs, and the value then has no
 // content, like any other nil pointer.
 func nilPointer(v Value) bool {
 	r := reflect.ValueOf(v)
-	return r.Kind() == reflect.Ptr && r.IsNil()
+	if r.Kind() == reflect.Ptr {
+		if r.IsNil() {
+			return true
+		}
+		r = r.Elem()
+	}
+	return r.Kind() == reflect.Struct && embedsNil(r, 0)
+}
+
+// embedsNil reports whether the struct r has an embedded field, at any depth
+// of embedding, that is a nil pointer or a nil interface.
+func embedsNil(r reflect.Value, depth int) bool {
+	if depth > 8 {
+		return false
+	}
+	t := r.Type()
+	for i := 0; i < t.NumField(); i++ {
+		if !t.Field(i).Anonymous {
+			continue
+		}
+		f := r.Field(i)
+		for f.Kind() == reflect.Ptr || f.Kind() == reflect.Interface {
+			if f.IsNil() {
+				return true
+			}
+			f = f.Elem()
+		}
+		if f.Kind() == reflect.Struct && embedsNil(f, depth+1) {
+			return true
+		}
+	}
+	return false
 }
 
 func stringToFloat(s string) float64 {
@@ -423,13 +490,29 @@ func GetAttr(v Value, attr Value, args ...Value) (Value, error) {
 			}
 			rargs[k] = rarg
 		}
-		res := retval.Call(rargs)
+		res, err := call(retval, rargs, nilPointer(v))
+		if err != nil {
+			return nil, fmt.Errorf("getattr: method \"%s\" on \"%s\" cannot be called: %s", describe(attr), describe(v), err)
+		}
 		if len(res) == 0 {
 			return nil, nil
 		}
 		retval = res[0]
 	}
 	return retval.Interface(), nil
+}
+
+// call calls fn. With guarded set, a panic is returned as an error: a method
+// promoted through a nil embedded pointer fails before it runs.
+func call(fn reflect.Value, args []reflect.Value, guarded bool) (res []reflect.Value, err error) {
+	if guarded {
+		defer func() {
+			if r := recover(); r != nil {
+				err = fmt.Errorf("%v", r)
+			}
+		}()
+	}
+	return fn.Call(args), nil
 }
 
 // describe names a value in an error message: scalars by their value,
@@ -503,12 +586,12 @@ func fieldByName(r reflect.Value, name string) reflect.Value {
 // numeric types when that loses nothing, and anything can be used as a string
 // through CoerceString. The second result is false if val cannot be used.
 func convertValue(val Value, t reflect.Type) (reflect.Value, bool) {
-	if sv, ok := val.(SafeValue); ok && !nilReceiver(sv, "Value") {
+	if sv, ok := val.(SafeValue); ok {
 		// A value marked as safe is, as a key or an argument, the value inside
 		// (unless a SafeValue is what is asked for).
 		wanted := reflect.TypeOf(val).AssignableTo(t) && !(t.Kind() == reflect.Interface && t.NumMethod() == 0)
-		if !wanted {
-			return convertValue(sv.Value(), t)
+		if inner, ok := safeInner(sv); ok && !wanted {
+			return convertValue(inner, t)
 		}
 	}
 	rv := reflect.ValueOf(val)
@@ -756,10 +839,14 @@ func equalValues(left, right Value, seen map[comparison]bool) bool {
 func withoutSafe(v Value) Value {
 	for i := 0; i < 100; i++ {
 		sv, ok := v.(SafeValue)
-		if !ok || nilReceiver(sv, "Value") {
+		if !ok {
 			break
 		}
-		v = sv.Value()
+		inner, ok := safeInner(sv)
+		if !ok {
+			break
+		}
+		v = inner
 	}
 	return v
 }
